@@ -187,7 +187,7 @@ func TestC12SM(t *testing.T) {
 		Rule: "population of two ExtendedDaemonSets (same name in another namespace, or another name in the same namespace; own templates and strategies) plus foreign pods carrying a matching name label in a third namespace and unlabelled pods in the EDS namespace; optionally a declared migration from an old DaemonSet (own pods of that DaemonSet next to pods with the same labels owned by another DaemonSet or by nobody, and a namesake DaemonSet in another namespace); all reconciles interleaved through rollouts and canaries; monitor ownership (every write of a reconcile targets the reconciling EDS's own objects; active/canary replica set is an own one) and, at the end, status counters = own pods only; non-trivial = both EDS were reconciled and >= 2 replica sets synced; distinct by action trace",
 		Cfg: WorldCfg{MinNodes: 2, MaxNodes: 5, Letters: "ABC", Strategy: gen.StrategyOpts{Canary: 1}, Forks: 0, Affinity: 2, PlainNodes: true, TwoEDS: true, Migration: true, Warmup: 4, StartEdit: 1,
 			Monitors: mon.Of("ownership", "no-panic"),
-			Weights:  weights(defaultWeights(), map[string]int{"round": 6, "edit-template": 4})},
+			Weights:  weights(defaultWeights(), map[string]int{"round": 6, "edit-template": 4, "migration-toggle": 2})},
 		MinSteps: 12, MaxSteps: 60,
 		Setup: addForeign,
 		After: func(w *World) {
@@ -233,7 +233,7 @@ func TestC13SM(t *testing.T) {
 		Rule: "history over template-edit words on the alphabet A,B,C (A->B->A, A->B->C, edits during a canary), edits of the ExtendedDaemonSet's own metadata.labels, with every interleaving of EDS, replica-set and PodTemplate reconciles and pod/kubelet steps that shape replica-set statuses at clean-up time; monitors rs-identity (one replica set per template, template/hash triple, pod hash = creator's) and rs-gc (never the active or matching set, only all-zero status, failed canary kept two minutes), plus PodTemplate = spec.template after each PodTemplate reconcile; non-trivial = the word revisits a letter or has >= 3 edits; distinct by action trace",
 		Cfg: WorldCfg{MinNodes: 1, MaxNodes: 4, Letters: "ABCIJ", Strategy: gen.StrategyOpts{Canary: 1}, Forks: 0, Affinity: 2, PlainNodes: true, Warmup: 4, StartEdit: 1,
 			Monitors: mon.Of("rs-identity", "rs-gc", "no-panic"),
-			Weights:  weights(defaultWeights(), map[string]int{"edit-template": 8, "rec-eds": 12, "rec-pt": 5, "round": 5, "node-taint": 0, "node-relabel": 0, "eds-relabel": 3})},
+			Weights:  weights(defaultWeights(), map[string]int{"edit-template": 8, "rec-eds": 12, "rec-pt": 5, "round": 5, "node-taint": 0, "node-relabel": 0, "eds-relabel": 3, "ers-protect": 3, "ers-release": 1})},
 		MinSteps: 15, MaxSteps: 70,
 		After: func(w *World) {
 			for _, k := range w.EDS {
@@ -318,6 +318,7 @@ func TestC02SM(t *testing.T) {
 // stabilise establishes the premises of C02 and checks convergence and the quiescent facts.
 func (w *World) stabilise(label string) {
 	w.C.Tracef("== stabilise (%s)", label)
+	w.releaseReplicaSets()
 	w.C.Faults = nil
 	w.C.RestartControllers()
 	for _, k := range w.EDS {
